@@ -62,6 +62,7 @@ struct regress_invocation {
 	} duration;
 	int		 total;
 	int		 fail;
+	unsigned int	 id;
 	unsigned int	 flags;
 #define REGRESS_INVOCATION_CVS		0x00000001u
 };
@@ -77,6 +78,7 @@ struct run {
 	int64_t		 time;
 	int64_t		 exit;
 	enum run_status	 status;
+	unsigned int	 invocation;	/* regress_invocation id */
 };
 
 struct suite {
@@ -105,7 +107,7 @@ static const char			 *render_rate(
 
 static int	regress_invocation_cmp(const struct regress_invocation *,
     const struct regress_invocation *);
-static int	run_cmp(const struct run *, const struct run *);
+static const struct run	*find_run(const struct run *, unsigned int);
 static int	suite_cmp(struct suite *const *, struct suite *const *);
 
 static int	copy_log(struct regress_html *, const char *,
@@ -319,12 +321,17 @@ parse_invocation(struct regress_html *r, const char *arch,
 		if (!is_regress_step(name))
 			continue;
 
+		suite = find_suite(r, name);
+		/* Only honor the first run of a suite in a given invocation. */
+		if (find_run(suite->runs, ri->id) != NULL)
+			continue;
+
 		ri->total++;
 
-		suite = find_suite(r, name);
 		run = VECTOR_CALLOC(suite->runs);
 		if (run == NULL)
 			err(1, NULL);
+		run->invocation = ri->id;
 		run->log = arena_sprintf(r->eternal, "%s/%s/%s",
 		    arch, ri->date, step_get_field(&steps[i], "log")->str);
 		run->time = time;
@@ -426,6 +433,7 @@ create_regress_invocation(struct regress_html *r, const char *arch,
 	ri = VECTOR_CALLOC(r->invocations);
 	if (ri == NULL)
 		err(1, NULL);
+	ri->id = (unsigned int)VECTOR_LENGTH(r->invocations);
 	ri->arch = arena_strdup(r->eternal, arch);
 	ri->date = arena_strdup(r->eternal, date);
 	ri->time = time;
@@ -632,15 +640,16 @@ regress_invocation_cmp(const struct regress_invocation *a,
 	return 0;
 }
 
-static int
-run_cmp(const struct run *a, const struct run *b)
+static const struct run *
+find_run(const struct run *runs, unsigned int invocation)
 {
-	/* Descending order. */
-	if (a->time < b->time)
-		return 1;
-	if (a->time > b->time)
-		return -1;
-	return 0;
+	size_t i;
+
+	for (i = 0; i < VECTOR_LENGTH(runs); i++) {
+		if (runs[i].invocation == invocation)
+			return &runs[i];
+	}
+	return NULL;
 }
 
 static int
@@ -851,7 +860,7 @@ render_suite(struct regress_html *r, struct suite *suite)
 
 	HTML_NODE(html, "tr") {
 		VECTOR(struct run) runs = suite->runs;
-		const struct regress_invocation *ri = r->invocations;
+		size_t nruns = 0;
 		size_t i;
 
 		HTML_NODE(html, "td") {
@@ -863,20 +872,25 @@ render_suite(struct regress_html *r, struct suite *suite)
 				HTML_TEXT(html, suite->name);
 		}
 
-		VECTOR_SORT(runs, run_cmp);
+		/*
+		 * Runs are matched with the invocation they belong to as
+		 * opposed of using the time since distinct invocations can
+		 * have been started at the same time.
+		 */
+		for (i = 0; i < VECTOR_LENGTH(r->invocations) &&
+		    nruns < VECTOR_LENGTH(runs); i++) {
+			const struct run *run;
 
-		for (i = 0; i < VECTOR_LENGTH(runs); i++) {
-			const struct run *run = &runs[i];
-
-			/* Compensate for missing run(s). */
-			for (; ri->time > run->time; ri++) {
+			run = find_run(runs, r->invocations[i].id);
+			if (run == NULL) {
+				/* Compensate for missing run. */
 				HTML_NODE(r->html, "td") {
 					/* nothing */
 				}
+				continue;
 			}
-			ri++;
-
 			render_run(r, run);
+			nruns++;
 		}
 	}
 }
